@@ -2,6 +2,9 @@ import Ggql.Driver.C06
 namespace Ggql.Driver.C10
 open Ggql Ggql.Walk Ggql.Driver.WalkWire
 
+/-- D69 (hand-set): `readFragmentDef` does not check that the type condition is defined -/
+def d69 : Bool := true
+
 def callsErrs : T → Option (T × T)
   | .node "resp" [_, es, cs] => some (es, cs)
   | _ => none
@@ -14,7 +17,16 @@ def handle (tb : Tables) (c impl : T) : String :=
     match decCase w with
     | none => "bad-op"
     | some cs =>
-      if kind == "reject" then
+      if kind == "rejectfragdef" then
+        -- an undefined type as the condition of a fragment definition: as coded (D69, hand-set; pinned by the
+        -- suite's TestParseExecutableError) the definition is accepted and its spreads select nothing
+        (match impl with
+         | .node "resp" [d, es, calls] =>
+           if (d == .atom "none" || d == .node "null" []) && !(es == T.list []) && calls == T.list [] then
+             (if d69 then "repaired D69" else "ok")
+           else if d69 then "dev D69" else "mismatch spec-bad (resp none _ (l))"
+         | _ => "bad-op")
+      else if kind == "reject" then
         -- unknown / misplaced directive, unknown directive argument, undefined type condition
         (match impl with
          | .node "resp" [d, es, calls] =>
@@ -36,6 +48,6 @@ def handle (tb : Tables) (c impl : T) : String :=
         else "mismatch " ++ (if specOk then "spec-ok " else "spec-bad ") ++ cur.render
   | _ => "bad-op"
 
-def flags (tb : Tables) : List (String × Bool) := [("D23", (cfgCur tb).argCountCheckOnly)]
+def flags (tb : Tables) : List (String × Bool) := [("D23", (cfgCur tb).argCountCheckOnly), ("D69", d69)]
 
 end Ggql.Driver.C10
